@@ -199,7 +199,7 @@ func (p *c12) aliasRebind(rec *core.Recorder, r *core.Rand) {
 	A := func(v string) string { return "<a:" + v + ":da>" }
 	B := func(v string) string { return "<b:" + v + ":db>" }
 	var want string
-	v := r.Intn(23)
+	v := r.Intn(26)
 	L := func(v string) string { return "<l:" + v + ":dl>" }
 	local := "{% macro x(v, w = 'dl') %}<l:{{ v }}:{{ w }}>{% endmacro %}"
 	// a library whose macros call each other and themselves, by name and through _self
@@ -207,6 +207,44 @@ func (p *c12) aliasRebind(rec *core.Recorder, r *core.Rand) {
 		"{% macro rec(n) %}{{ n }}{% if n > 1 %},{{ _self.rec(n - 1) }}{% endif %}{% endmacro %}{% macro rec2(n) %}{{ n }}{% if n > 1 %};{{ rec2(n - 1) }}{% endif %}{% endmacro %}"
 	sib := func(v string) string { return "[<i:" + v + "><i:" + v + ">]|3,2,1|2;1" }
 	switch v {
+	case 25:
+		// a template that extends another calls its own macro above the place where it is written (a top-level set, and
+		// inside its block), as a standalone template can
+		srcs["lay"] = "[{% block body %}d{% endblock %}]"
+		srcs["main"] = "{% extends 'lay' %}{% set held = x(" + a + ") %}" + local + "{% block body %}{{ held }}|{{ x(" + b + ") }}|{{ _self.x(" + c + ", 'k') }}{% endblock %}"
+		want = "[" + L(a) + "|" + L(b) + "|<l:" + c + ":k>]"
+	case 24:
+		// a library whose macros use what the library imports at its top level (a module and an aliased from-import),
+		// however the library is reached; a parameter named like the module shadows it
+		srcs["lu"] = "{% import 'la' as ua %}{% from 'lb' import x as bx %}{% macro both(v) %}{{ ua.x(v) }}{{ bx(v, 'k') }}{% endmacro %}{% macro shadow(ua) %}({{ ua }}){% endmacro %}"
+		own := []string{"", "{% macro bx(v) %}WRONG{% endmacro %}", "{% set ua = 'WRONG' %}"}[r.Intn(3)]
+		switch r.Intn(5) {
+		case 0:
+			srcs["main"] = own + "{% import 'lu' as " + alias + " %}{{ " + alias + ".both(" + a + ") }}|{{ " + alias + ".shadow(" + b + ") }}"
+		case 1:
+			srcs["main"] = own + "{% from 'lu' import both as b9, shadow %}{{ b9(" + a + ") }}|{{ shadow(" + b + ") }}"
+		case 2:
+			srcs["main"] = own + "{% from 'lu' import both, shadow %}{% for i in [1] %}{{ both(" + a + ") }}{% endfor %}|{% if true %}{{ shadow(" + b + ") }}{% endif %}"
+		case 3:
+			srcs["main"] = "{% include 'part' %}"
+			srcs["part"] = own + "{% import 'lu' as " + alias + " %}{{ " + alias + ".both(" + a + ") }}|{{ " + alias + ".shadow(" + b + ") }}"
+		default:
+			srcs["main"] = srcs["lu"] + "{{ both(" + a + ") }}|{{ _self.shadow(" + b + ") }}"
+		}
+		want = A(a) + "<b:" + a + ":k>|(" + b + ")"
+	case 23:
+		// parameters named like things the engine binds itself (loop, _self-less names such as block, parent): a parameter is
+		// bound to its argument whatever its name, directly and through imports, inside a for loop
+		srcs["lp"] = "{% macro row(item, loop) %}{{ loop.index }}:{{ item }}/{{ loop.last ? 'L' : '-' }};{% endmacro %}{% macro cell(block, parent = 'dp') %}<{{ block }}|{{ parent }}>{% endmacro %}"
+		switch r.Intn(3) {
+		case 0:
+			srcs["main"] = srcs["lp"] + "{% for it in ['a', 'b'] %}{{ row(it, loop) }}{% endfor %}|{{ cell(" + a + ") }}|{{ _self.row('z', {'index': 9, 'last': true}) }}"
+		case 1:
+			srcs["main"] = "{% import 'lp' as " + alias + " %}{% for it in ['a', 'b'] %}{{ " + alias + ".row(it, loop) }}{% endfor %}|{{ " + alias + ".cell(" + a + ") }}|{{ " + alias + ".row('z', {'index': 9, 'last': true}) }}"
+		default:
+			srcs["main"] = "{% from 'lp' import row as rw, cell %}{% for it in ['a', 'b'] %}{{ rw(it, loop) }}{% endfor %}|{{ cell(" + a + ") }}|{{ rw('z', {'index': 9, 'last': true}) }}"
+		}
+		want = "1:a/-;2:b/L;|<" + a + "|dp>|9:z/L;"
 	case 22:
 		// a macro called above the place where it is written, directly and through _self, at the top level, in a loop and in
 		// an included template
